@@ -44,24 +44,26 @@ Step(rec) ==
       dup == isMsg /\ m.id \in Rng(seen)
       A1 == IF isMsg /\ ~dup THEN AnnAfter(ann, m) ELSE ann
   IN
-  /\ local' = L1 /\ remote' = R1 /\ seen' = S1 /\ ann' = A1
+  \* what the node has published is tracked from the API calls (Publish / Unpublish), not read from its own table: the
+  \* published entry (with the MetadataVersion the node gave it) is taken over at Publish only
+  /\ local' = (IF rec.act = "Publish" THEN (local \ Of(local, rec.e)) \cup Of(L1, rec.e)
+               ELSE IF rec.act = "Unpublish" THEN local \ Of(local, rec.e)
+               ELSE local)
+  /\ remote' = R1 /\ seen' = S1 /\ ann' = A1
   /\ Clause("seen_bounded", Len(S1) <= rec.obs.cap)
   /\ IF rec.act = "Publish"
        THEN /\ Clause("api:publish", \E s \in L1 : /\ s.e = rec.e
                                                   /\ Rng(s.types) = Rng(rec.p.types)
                                                   /\ Rng(s.scopes) = Rng(rec.p.scopes)
-                                                  /\ Rng(s.xaddrs) = Rng(rec.p.xaddrs)
-                                                  /\ L1 \ {s} = local \ Of(local, rec.e))
+                                                  /\ Rng(s.xaddrs) = Rng(rec.p.xaddrs))
             /\ Clause("highest_mv:Api", RemoteOK(R1, A1))
      ELSE IF rec.act = "Unpublish"
-       THEN /\ Clause("api:unpublish", L1 = local \ Of(local, rec.e))
-            /\ Clause("highest_mv:Api", RemoteOK(R1, A1))
+       THEN /\ Clause("highest_mv:Api", RemoteOK(R1, A1))
      ELSE IF dup
        \* ActOnce
-       THEN /\ Clause("act_once:tables:" \o m.kind, L1 = local /\ R1 = remote)
+       THEN /\ Clause("act_once:tables:" \o m.kind, R1 = remote)
             /\ Clause("act_once:answer:" \o m.kind, out = <<>>)
-     ELSE /\ Clause("local_unchanged:" \o m.kind, L1 = local)
-          \* HighestMv
+     ELSE \* HighestMv
           /\ Clause("highest_mv:" \o m.kind, RemoteOK(R1, A1))
           /\ Clause("remembered:" \o m.kind, Len(out) < rec.obs.cap => m.id \in Rng(S1))
           /\ IF m.kind = "Probe"
